@@ -156,3 +156,17 @@ package p2pkeswarm
 //@   trusted
 //@   noframe
 //@   ensures ret != nil
+
+// Close closes the hub whatever the inner swarm's Close returns
+//@ func (*Swarm).Close
+//@   noframe
+//@   requires s != nil && inv(s)
+//@   ensures [hubclosed] closed(old(s.hub.closed))
+//@   fnspec Close:
+//@     ensures inv(s.hub)
+//@     preserves s.hub.closed
+//@   fnspec cf:
+//@     ensures inv(s.hub)
+//@     preserves s.hub.closed
+//@   fnspec Wait:
+//@     preserves s.hub.closed, closed(s.hub.closed)
